@@ -42,6 +42,7 @@ type Variant struct {
 	Late     int  `json:"late,omitempty"`     // every child history of more than Late versions is handed over without its first Late versions (a history extract that starts later: parents before it reference a child that is "not yet there")
 	Refilter int  `json:"refilter,omitempty"` // x+1: after the judged call the same parents are annotated again with a ChildFilter accepting only child x (the incremental workflow: one child changed); nothing about the histories changed, so the same truth is judged again
 	Reuse    bool `json:"reuse,omitempty"`    // Refilter variants: ONE ChildFilter option value is used for two further calls; the caller first spoils the annotation of child x (wrong version and location, its updates removed), calls with the filter accepting nothing, then lets the same filter accept x and calls again: x is recomputed
+	KeepVer  bool `json:"keep_ver,omitempty"` // Reuse variants: the caller spoils changeset and location of child x only, the version number stays right and the updates stay
 	ByTime   bool `json:"by_time,omitempty"`  // Refilter variants: between the two calls the caller re-orders every parent's update list with Updates.SortByTimestamp (a public method; applying updates does not need any order)
 	LocOnly  bool `json:"loc_only,omitempty"` // ChildFilter variants: the references that are NOT pre-annotated carry a stale location and version 0 on input (way nodes read from a PBF with locations on ways): they are unannotated and get annotated whatever the filter says
 	AsList   bool `json:"as_list,omitempty"`  // the datasource is OSM.HistoryDatasource() of ONE element list in which the histories are dealt out one version at a time (the versions of an id are not adjacent)
